@@ -1,0 +1,23 @@
+//go:build verif
+
+package blanknodes
+
+import "github.com/dpb587/rdfkit-go/rdf"
+
+// VerifStringInfo exposes the label and owning factory of an identifier allocated by a StringFactory, and the anonymous
+// factory a StringFactory delegates to, to the verification harness.
+func VerifStringInfo(id rdf.BlankNodeIdentifier) (label string, scope StringFactory, ok bool) {
+	if t, isT := id.(bnString); isT {
+		return t.v, t.s, true
+	}
+
+	return "", nil, false
+}
+
+func VerifAnonFactory(f StringFactory) rdf.BlankNodeFactory {
+	if t, ok := f.(*bnStringF); ok {
+		return t.anon
+	}
+
+	return nil
+}
